@@ -177,6 +177,14 @@ func legSem(c *Ctx, rtl bool) {
 				}
 				impl := encMatch(m, err)
 				desc := fmt.Sprintf("pattern %q opts=%s input %+q start=%d -> %v", pat, o, string(in), start, impl)
+				if rtl || k%2 == 0 {
+					// the string entry point with the EXPLICIT start offset (in bytes) answers the same question, 0 included
+					if ms, errs, pans := safeFindStringAt(re, string(in), len(string(in[:start]))); pans != "" {
+						c.Add(&Case{Desc: desc, Direct: "FindStringMatchStartingAt panicked: " + pans, Class: "panic"})
+					} else if es := encMatch(ms, errs); fmt.Sprint(es) != fmt.Sprint(impl) {
+						c.Add(&Case{Desc: "[string entry, explicit start] " + desc, Direct: fmt.Sprintf("FindStringMatchStartingAt(text, %d) returns %v", len(string(in[:start])), es), Class: "string-entry"})
+					}
+				}
 				if (start == 0 && !rtl) || (start == len(in) && rtl) {
 					// the string entry point answers the same question (it runs the raw-string prefilter in front)
 					if ms, errs, pans := safeFindString(re, string(in)); pans != "" {
@@ -204,6 +212,16 @@ func legSem(c *Ctx, rtl bool) {
 	for k := ALit; k <= AOptGroup; k++ {
 		c.Gate(fmt.Sprintf("AST kind %d generated", k), modes[fmt.Sprintf("kind%d", k)] > 0)
 	}
+}
+
+func safeFindStringAt(re *regexp2.Regexp, in string, at int) (m *regexp2.Match, err error, pan string) {
+	defer func() {
+		if p := recover(); p != nil {
+			pan = fmt.Sprint(p)
+		}
+	}()
+	m, err = re.FindStringMatchStartingAt(in, at)
+	return
 }
 
 func safeFindString(re *regexp2.Regexp, in string) (m *regexp2.Match, err error, pan string) {
